@@ -113,7 +113,7 @@ def job_kelvin(l):
         A = pos + [R.re > 0] + list(z.cons)
         goal = z3.And(eq_goal(lv[0], kk), eq_goal(lv[1], Q(Fr(2 * l + 1, 3)) * kk), eq_goal(lv[2], kk / l))
         results.append(discharge(Obligation('l=%d solve_for=%r: boundary vectors + cf_apply_surface_bc + cf_collapse_layer_solution + find_love_cf applied to the regular solutions give exactly '
-                                            'k = 3/(2(l-1))/(1+m_l), h = (2l+1)k/3, l = k/l, m_l = (2l^2+4l+3) mu/(l rho g R)' % (l, solve_for), goal, A, replay=lambda md: replay_kelvin(l), key='kelvin:love')))
+                                            'k = 3/(2(l-1))/(1+m_l), h = (2l+1)k/3, l = k/l, m_l = (2l^2+4l+3) mu/(l rho g R)' % (l, solve_for), goal, A, replay=lambda md: replay_kelvin_full(l, solve_for, ytype_i), key='kelvin:love')))
         results.append({'name': 'l=%d kelvin surface [reachability twin]' % l, 'key': 'twin', 'twin': True, 'verdict': solve.sat_check(A + CTX.axioms, 30000), 'solver_s': 0.0, 'info': {}})
         bad = eq_goal(lv[0], 2 * kk)
         so = z3.Solver()
@@ -126,7 +126,58 @@ def job_kelvin(l):
     return {'results': results, 'encoded': loader.ENCODED, 'axioms': CTX.axiom_notes + ['zgesv contract stub'], 'label': 'kelvin l=%d' % l}
 
 
-def replay_kelvin(l):
+def real_kelvin(l, solve_for):
+    """REAL radial_solver on a homogeneous, effectively incompressible sphere, the tidal solution requested the way the obligation requests it, both nondimensionalize settings: tidal
+    (k, h, l) against the Kelvin closed form"""
+    code = (
+        "import sys, json\n"
+        "sys.modules['diffeqpy'] = None\n"
+        "import numpy as np\n"
+        "from TidalPy.RadialSolver import radial_solver\n"
+        "G = 6.67430e-11\n"
+        "R, rho, mu, w, l = 6.0e6, 3500., 5.0e10 + 2.0e10j, 1.0e-6, %d\n"
+        "solve_for = %r\n"
+        "g = (4. / 3.) * np.pi * G * rho * R\n"
+        "m = (2. * l ** 2 + 4. * l + 3.) * mu / (l * rho * g * R)\n"
+        "k = 3. / (2. * (l - 1.)) / (1. + m)\n"
+        "want = np.asarray((k, (2. * l + 1.) * k / 3., k / l))\n"
+        "out = {'want_k': [k.real, k.imag], 'runs': []}\n"
+        "for nd in (True, False):\n"
+        "    N = 100\n"
+        "    radius = np.linspace(0.01 * R, R, N); density = rho * np.ones(N); gravity = (4. / 3.) * np.pi * G * rho * radius\n"
+        "    bulk = 1.0e16 * np.ones(N); shear = mu * np.ones(N, dtype=np.complex128)\n"
+        "    sol = radial_solver(radius, density, gravity, bulk, shear, w, rho, ('solid',), (True,), (False,), (R,), degree_l=l, solve_for=solve_for, use_kamata=True,\n"
+        "                        integration_method='rk45', integration_rtol=1.0e-9, integration_atol=1.0e-12, max_num_steps=5000000, nondimensionalize=nd)\n"
+        "    if not sol.success:\n"
+        "        out['runs'].append({'nondimensionalize': nd, 'success': False}); continue\n"
+        "    names = list(solve_for) if solve_for else ['tidal']\n"
+        "    got = np.atleast_2d(sol.love)[names.index('tidal')]\n"
+        "    out['runs'].append({'nondimensionalize': nd, 'success': True, 'k': [complex(got[0]).real, complex(got[0]).imag], 'max_err': float(np.max(np.abs(got - want)))})\n"
+        "print('@@RESULT@@' + json.dumps(out))\n") % (l, tuple(solve_for) if solve_for else None)
+    import subprocess, tempfile, json
+    with tempfile.TemporaryDirectory(prefix='verif_c01_') as td:
+        p = subprocess.run([replay.VENV_PY, '-c', code], capture_output=True, text=True, cwd=td, env=dict(os.environ, PYTHONPATH=solve.REPO), timeout=900)
+    if '@@RESULT@@' not in p.stdout:
+        return False, 'real radial_solver run failed: %s' % p.stderr[-300:]
+    out = json.loads(p.stdout.split('@@RESULT@@')[-1])
+    bad = any(r.get('success') and r['max_err'] > 1e-4 for r in out['runs'])
+    return bad, 'REAL radial_solver, homogeneous incompressible-limit sphere, l=%d, solve_for=%r: %s' % (l, solve_for, json.dumps(out))
+
+
+def replay_kelvin_full(l, solve_for, ytype_i=0):
+    """source-level replay first (ODE residual + surface step on the current sources), then the public API with the obligation's own solve_for"""
+    bad, detail = replay_kelvin(l, solve_for, ytype_i)
+    if bad:
+        return bad, detail
+    if 'tidal' in (solve_for or ('tidal',)):
+        bad2, detail2 = real_kelvin(l, solve_for)
+        if bad2:
+            return True, detail2
+        return False, detail + ' ; ' + detail2
+    return bad, detail
+
+
+def replay_kelvin(l, solve_for=None, ytype_i=0):
     """numeric: integrate nothing -- evaluate the polynomial regular solutions with floats through the transliterated current source and compare with the Kelvin numbers"""
     import numpy as np
     rho, mu, gam, R = 3.0, 3.5, 5.0 / 3.0, 2.0
@@ -164,18 +215,37 @@ def replay_kelvin(l):
         for i in range(6):
             U.data[j * 6 + i] = vecs[j][i]
     bd = [0.0, 0.0, (2 * l + 1) / R] + [float('nan')] * 12
+    bc_note = ''
+    try:
+        import c03
+        # the boundary vectors as the CURRENT source builds them for this solve_for (exact rationals at rho_bulk = rho, R; the caller's dimensional radius / density are distinct symbols)
+        bd_src, _, _ = c03.run_bc(c03.load_bc_block(), solve_for, l, Q(Fr(R)), Q(Fr(rho)))
+        conv = []
+        for v in bd_src:
+            try:
+                conv.append(float('nan') if v is None else float(Q.of(v).const()))
+            except Exception:
+                conv.append(None)
+        if any(v is None for v in conv[ytype_i * 3:ytype_i * 3 + 3]):
+            return True, 'l=%d solve_for=%r: the boundary vector the current source builds for the tidal solution depends on the caller\'s DIMENSIONAL radius / bulk density instead of the values in use (%r)' % (
+                l, solve_for, [str(v) for v in bd_src[ytype_i * 3:ytype_i * 3 + 3]])
+        bd = [float('nan') if v is None else v for v in conv]
+        bc_note = ' (boundary vectors from the current bc block)'
+    except Exception as e:
+        bc_note = ' (boundary vector block could not be evaluated in float mode: %r)' % (e,)
     cvec, info = CArr((3,), 'c'), CArr((1,), 'info')
-    bnd['cf_apply_surface_bc'](Ptr(cvec, 0), Ptr(info, 0), bd, Ptr(U, 0), gs, G, 3, 6, 0, 0, True, True)
+    bnd['cf_apply_surface_bc'](Ptr(cvec, 0), Ptr(info, 0), bd, Ptr(U, 0), gs, G, 3, 6, ytype_i, 0, True, True)
     out = CArr((30,), 'solution')
-    col['cf_collapse_layer_solution'](Ptr(out, 0), Ptr(cvec, 0), [[U.data[j * 6 + i] for i in range(6)] for j in range(3)], [R], [rho], [gs], 0.0, 0, 1, 3, 6, 6, 30, 0, 0, True, True)
+    col['cf_collapse_layer_solution'](Ptr(out, 0), Ptr(cvec, 0), [[U.data[j * 6 + i] for i in range(6)] for j in range(3)], [R], [rho], [gs], 0.0, 0, 1, 3, 6, 6, 30, ytype_i, 0, True, True)
     lv = [None] * 3
-    love['find_love_cf'](lv, Ptr(out, 0), gs)
+    love['find_love_cf'](lv, Ptr(out, ytype_i * 6), gs)
     k = complex(lv[0])
     m_l = (2 * l * l + 4 * l + 3) / l * mu / (rho * gs * R)
     kk = 3 / (2 * (l - 1)) / (1 + m_l)
     bad = worst > 1e-8 or abs(k - kk) > 1e-9 or abs(complex(lv[1]) - (2 * l + 1) * kk / 3) > 1e-9 or abs(complex(lv[2]) - kk / l) > 1e-9
-    return bad, 'l=%d: max relative ODE residual of the polynomial solutions on the current odes.pyx: %.2e; current boundaries/collapse/love sources give (k,h,l)=(%r,%r,%r), Kelvin k=%r' % (
-        l, worst, k, complex(lv[1]), complex(lv[2]), kk)
+    bad = bad or (k != k and not bc_note.startswith(' (boundary vector block could not'))
+    return bad, 'l=%d: max relative ODE residual of the polynomial solutions on the current odes.pyx: %.2e; current boundaries/collapse/love sources give (k,h,l)=(%r,%r,%r), Kelvin k=%r%s' % (
+        l, worst, k, complex(lv[1]), complex(lv[2]), kk, bc_note)
 
 
 def job_limits(l):
